@@ -1,13 +1,14 @@
 (* Tools/DiffRun.v — evaluation harness for the correspondence check (cases.v files import this).
    Definitions only. *)
-From GS Require Import Base.Str Gen.GenDiffTables Tools.DiffTypes Tools.DiffSpec Tools.DiffModel Tools.DiffReport.
+From GS Require Import Base.Str Gen.GenDiffTables Tools.DiffTypes Tools.DiffSpec Tools.DiffModel Tools.DiffReport Tools.DiffExt.
 
 Definition cidx (n : nat) : code := nth n all_codes NoChangeDetected.
 Definition kidx (n : nat) : compat := nth n all_compats compat_zero.
 
 Inductive observed := OPanic | ODiffs (l : list sdiff).
 
-Record case := { c_a : swagger; c_b : swagger; c_obs : observed }.
+(* c_xa, c_xb: the vendor extensions of the two documents (Tools/DiffExt.v) *)
+Record case := { c_a : swagger; c_b : swagger; c_obs : observed; c_xa : xdoc; c_xb : xdoc }.
 
 (* fuel: generous; [Fuel] is reported as its own verdict, never silently *)
 Definition model_fuel : nat := 64.
@@ -28,7 +29,7 @@ Fixpoint multiset_eqb (a b : list sdiff) : bool :=
 Inductive verdict := VAgree | VModelPanic | VImplPanic | VFuel | VDiffer.
 
 Definition judge (c : case) : verdict :=
-  match analyse model_fuel (c_a c) (c_b c), c_obs c with
+  match analyse_all model_fuel (c_a c) (c_b c) (c_xa c) (c_xb c), c_obs c with
   | Fuel, _ => VFuel
   | Panic, OPanic => VAgree
   | Panic, ODiffs _ => VModelPanic
@@ -51,7 +52,7 @@ Definition total_norm (ds : list sdiff) : list sdiff :=
   match ds with [] => [] | _ => [mk_diff {| l_url := []; l_method := []; l_response := 0; l_node := None |} NoChangeDetected []] end.
 
 Definition judge_p (p : proj) (c : case) : verdict :=
-  match analyse model_fuel (c_a c) (c_b c), c_obs c with
+  match analyse_all model_fuel (c_a c) (c_b c) (c_xa c) (c_xb c), c_obs c with
   | Fuel, _ => VFuel
   | Panic, OPanic => VAgree
   | Panic, ODiffs _ => VModelPanic
@@ -97,7 +98,7 @@ Definition show_diff (d : sdiff) : string :=
   string_of_str (diff_string d ++ s " [" ++ match compat_str (d_compat d) with Some x => x | None => s "?" end ++ s "]").
 
 Definition show_model (c : case) : list string :=
-  match analyse model_fuel (c_a c) (c_b c) with
+  match analyse_all model_fuel (c_a c) (c_b c) (c_xa c) (c_xb c) with
   | Ok m => map show_diff m
   | Panic => ["PANIC"%string]
   | Fuel => ["FUEL"%string]
